@@ -504,6 +504,7 @@ int pthread_create(pthread_t *th, const pthread_attr_t *attr, void *(*fn)(void *
     *th = n->real;
     if (rd_fork) rd_fork(me->id, n->id);
     applied(me, n->id);
+    if (g_ctl && g_ctl->yield_after_create()) vs::yield("created");
     return 0;
 }
 
